@@ -59,6 +59,27 @@ def mentions(x, e, op=None):
     return False
 
 
+def copies_a_parameter(prog):
+    """some function body copies one of the function's own parameters (t{b = 2})"""
+    found = []
+
+    def walk(x, ps):
+        if isinstance(x, list):
+            for y in x:
+                walk(y, ps)
+        elif isinstance(x, dict):
+            if x.get("e") == "func":
+                walk(x["body"], ["".join(p) for p in x["ps"]])
+                return
+            if x.get("e") == "copy" and "".join(x["sel"]) in ps:
+                found.append(True)
+            for v in x.values():
+                if isinstance(v, (dict, list)):
+                    walk(v, ps)
+    walk(prog, [])
+    return bool(found)
+
+
 def selects_two_fields_of_a_parameter(prog):
     """some function body selects two different fields of one of its parameters (t.a ... t.b)"""
     found = []
@@ -144,6 +165,8 @@ def work(h, cases):
             key = "checker:select-of-mixed-types" if c.get("clean") == "union" else classify(bo[1])
             if "not found in tuple" in bo[1] and selects_two_fields_of_a_parameter(c["prog"]):
                 key = "checker:parameter-pinned-to-its-first-selected-field"
+            if key == "checker:No candidate type has field '_'" and copies_a_parameter(c["prog"]):
+                key = "checker:field-added-by-a-copy-of-an-untyped-parameter"      # a repaired defect (fixed finding)
             if key == "checker:Incompatible List Shapes" and not mentions(c["prog"], "bin", "add"):
                 key += " (no + in the program)"     # the recorded finding is about list concatenation
             out.append({"status": "violation", "key": key, "text": text, "kind": "rejected",
